@@ -295,6 +295,7 @@ class Check:
         self.repo = repo
         self.obs = []  # dicts
         self.shape_mismatch = []
+        self.deferred = []  # analysis errors of single rules, raised after all rules have run
         self.rules = {}  # rule id -> description
         self.assumptions = []
         self.extra = {}
@@ -302,6 +303,19 @@ class Check:
 
     def rule(self, rid, desc):
         self.rules[rid] = desc
+
+    def attempt(self, fn, *a, **k):
+        """Run one rule; when the code has a shape the rule cannot read (AnalysisError) the other rules of
+        the property still run - their verdicts stand on their own - and the error is raised at the end."""
+        try:
+            return fn(*a, **k)
+        except AnalysisError as e:
+            self.deferred.append(e)
+            return None
+
+    def raise_deferred(self):
+        if self.deferred:
+            raise AnalysisError('; '.join(dict.fromkeys(str(e) for e in self.deferred)))
 
     def ob(self, rule, rel, qual, construct, ok, detail='', trivial=False, shape=False):
         """Record one obligation.  ``shape=True`` marks an obligation that is
